@@ -758,13 +758,69 @@ func checkCounterWriters(r *Run, p *packages.Package) {
 	if !ok {
 		return
 	}
+	// the shared counters: pointer fields of Stats, or of a struct Stats holds by value
 	counters := map[*types.Var]bool{}
-	for i := 0; i < st.NumFields(); i++ {
-		if _, isPtr := st.Field(i).Type().(*types.Pointer); isPtr {
-			counters[st.Field(i)] = true
+	var collectCounters func(st *types.Struct, depth int)
+	collectCounters = func(st *types.Struct, depth int) {
+		for i := 0; i < st.NumFields(); i++ {
+			f := st.Field(i)
+			if _, isPtr := f.Type().(*types.Pointer); isPtr {
+				counters[f] = true
+			} else if inner, ok := f.Type().Underlying().(*types.Struct); ok && depth < 2 {
+				if n := namedOf(f.Type()); n != nil && n.Obj().Pkg() == p.Types {
+					collectCounters(inner, depth+1)
+				}
+			}
 		}
 	}
-	allowed := map[string]map[string]string{"size": {"Stats.Put": "1", "Stats.Delete": "-1"}, "hits": {"Stats.Hit": "1"}, "misses": {"Stats.Miss": "1"}}
+	collectCounters(st, 0)
+	// which counter is which is read off the exported event methods that write it with a constant: the size counter is
+	// the one Put adds 1 to (and Delete may subtract 1 from), the others belong to Hit and to Miss
+	eventOf := map[*types.Var]map[string]string{}
+	for _, fd := range declsWhere(p, func(fd *ast.FuncDecl) bool {
+		return fd.Recv != nil && recvTypeName(fd.Recv.List[0].Type) == "Stats" && ast.IsExported(fd.Name.Name)
+	}) {
+		ast.Inspect(fd.Body, func(x ast.Node) bool {
+			call, ok := x.(*ast.CallExpr)
+			if !ok || len(call.Args) != 1 {
+				return true
+			}
+			sel, ok := call.Fun.(*ast.SelectorExpr)
+			if !ok || sel.Sel.Name != "Add" {
+				return true
+			}
+			fsel, ok := ast.Unparen(sel.X).(*ast.SelectorExpr)
+			if !ok {
+				return true
+			}
+			fs := info.Selections[fsel]
+			if fs == nil {
+				return true
+			}
+			fv, _ := fs.Obj().(*types.Var)
+			if !counters[fv] {
+				return true
+			}
+			if tv, has := info.Types[call.Args[0]]; has && tv.Value != nil {
+				if eventOf[fv] == nil {
+					eventOf[fv] = map[string]string{}
+				}
+				eventOf[fv]["Stats."+fd.Name.Name] = tv.Value.ExactString()
+			}
+			return true
+		})
+	}
+	allowed := map[string]map[string]string{}
+	for fv, ev := range eventOf {
+		switch {
+		case ev["Stats.Put"] == "1":
+			allowed[fv.Name()] = map[string]string{"Stats.Put": "1", "Stats.Delete": "-1"}
+		case ev["Stats.Hit"] == "1":
+			allowed[fv.Name()] = map[string]string{"Stats.Hit": "1"}
+		case ev["Stats.Miss"] == "1":
+			allowed[fv.Name()] = map[string]string{"Stats.Miss": "1"}
+		}
+	}
 	n := 0
 	for _, f := range p.Syntax {
 		for _, d := range f.Decls {
@@ -799,7 +855,7 @@ func checkCounterWriters(r *Run, p *packages.Package) {
 					return true
 				}
 				// counters of a Stats value this function has just built with fresh counters are not shared with any cache
-				if id, ok := ast.Unparen(fsel.X).(*ast.Ident); ok && freshStatsLocal(p, fd, info.Uses[id], counters) {
+				if id := rootIdent(fsel.X); id != nil && freshStatsLocal(p, fd, info.Uses[id], counters) {
 					return true
 				}
 				n++
